@@ -98,7 +98,19 @@ Fixpoint view (v : gv) : vview :=
   match v with
   | GP c => WPrim c
   | GIfaceNil => WNil
-  | GIfaceData _ => WOther
+  | GIfaceData x =>
+    (* what an interface{} field holds after Unpack: generic data *)
+    match x with
+    | ONil => WNil
+    | OBool b => WPrim (CB b)
+    | OInt z => WPrim (CI z)
+    | OUint z => WPrim (CU z)
+    | OFloat f => WPrim (CF f)
+    | OStr s => WPrim (CS s)
+    | OList l => WSlice false (List.length l)
+    | OMap m => WMap false (List.length m)
+    | _ => WOther
+    end
   | GPtrNil => WPtrNil
   | GPtr x => WPtr (view x)
   | GSliceNil => WSlice true 0
@@ -331,7 +343,10 @@ Section Reify.
       | TIface =>
         match val with
         | VRef _ _ | VSplice _ => OutOfModel
-        | _ => Ok (match strip val with ONil => GIfaceNil | x => GIfaceData x end)
+        | _ =>
+          (* the validate tags of an interface{} field apply to what it is given (fix F77) *)
+          let g := match strip val with ONil => GIfaceNil | x => GIfaceData x end in
+          _ <- run_validators (r_vo o) vts (view g) ;; Ok g
         end
       | _ =>
         match base_ty t with
